@@ -257,7 +257,18 @@ theorem em_restoreOne (cwd : CPath) (ow : Bool) (e : Entry) : Emits P (restoreOn
       · exact em_makedirs _ _ _
     · split
       · exact Emits.pure _
-      · exact Emits.read_bind fun fs2 => em_restoreCore _ _ _
+      · refine Emits.read_bind fun fs2 => ?_
+        refine Emits.bind ?_ fun cl => ?_
+        · split
+          · unfold atPath
+            refine Emits.read_bind fun fs3 => ?_
+            split
+            · exact em_removeFile _
+            · exact Emits.pure _
+          · exact Emits.pure _
+        · split
+          · exact Emits.pure _
+          · exact Emits.read_bind fun fs4 => em_restoreCore _ _ _
 
 theorem em_restoreMany (cwd : CPath) (ow : Bool) : ∀ es : List Entry, Emits P (restoreMany cwd ow es) := by
   intro es
